@@ -3,7 +3,7 @@ CONSTANTS
   Share <- ShareFn
   MaxRetries = 2
   World = 0
-  EKinds = {"slc", "valset", "usc", "uusc"}
+  EKinds = {"slc", "valset", "usc", "uscn", "uusc"}
   KMax = 2
   Corrs = {"none", "c"}
   Sts = {"ok", "fail"}
